@@ -60,9 +60,9 @@ func (t *tap) write(e interface{}) {
 	tapMu.Unlock()
 }
 
-func (t *tap) WriteEvent(e interface{})                            { t.write(e) }
+func (t *tap) WriteEvent(e interface{})                           { t.write(e) }
 func (t *tap) WriteEventWithTimestamp(e interface{}, _ time.Time) { t.write(e) }
-func (t *tap) Close()                                              {}
+func (t *tap) Close()                                             {}
 
 func main() {
 	integration.RegisterPlugin("testplugin", "testPluginEndpoint", testplugin.NewPlugin)
